@@ -175,30 +175,49 @@ theorem RwView.reopen_au {h : H} {s : Store} {R W F : Nat} {hdr D : List Byte} (
     rw [e, Nat.mul_div_cancel _ v.bw_pos]
   · rw [h9, hO, ← hlen]; simp
 
+theorem hdrLenOf_wav (h : H) (hc : h.container = .wav) (hpk : PeakOk h) :
+    hdrLenOf h = wavHdrLen_ct (codecOf h.fmtWord) h.ch h.peak.isSome := by
+  cases hp : h.peak with
+  | none =>
+    simp only [hdrLenOf, hc, wavHdrLen, hp, wavHdrLen_ct, wavFmtLen]
+    simp
+  | some ps =>
+    obtain ⟨a, b⟩ := hpk ps hp
+    simp only [hdrLenOf, hc, wavHdrLen, hp, wavHdrLen_ct, wavFmtLen, Option.map_some, a, b]
+    simp
+
+theorem wavPeakStart_length (b : Bool) (ch : Nat) (peak : Option (List Peak)) (hp : ∀ ps, peak = some ps → ps.length = ch) :
+    (wavPeakStart b ch peak true).length = if peak.isSome then 16 + 8 * ch else 0 := by
+  cases peak with
+  | none => rfl
+  | some ps => simp [wavPeakStart, peakChk_length, hp ps rfl]
+
 theorem RwView.reopen_wav {h : H} {s : Store} {R W F : Nat} {hdr D : List Byte} (v : RwView h s R W F hdr D)
     {fmt : Nat} {ch sr : Int} (cfg : CfgOf fmt ch sr h) (hc : h.container = .wav) (hsr : sr ≤ 0x7FFFFFFF)
     (hguard : D.length < 0xFFFFFFFF)
     (ix pos fmt0 : Nat) (ch0 sr0 : Int) (hraw : containerOf fmt0 ≠ some .raw) :
     ∃ h' s', openHandle ix ⟨(closeHandle h s).bytes, pos⟩ .r fmt0 ch0 sr0 = .ok h' s' ∧ Reopened h F D h' s' := by
-  rw [v.close_wav hc]
+  obtain ⟨t2, ht2, _, hcl⟩ := v.close_wav hc
+  rw [hcl]
   have henc : encOf .wav (codecOf h.fmtWord) h.big = some h.enc := by
     have := cfg.enc; rw [hc] at this; rw [cfg.fmtWord]; exact this
   obtain ⟨hcodec, hnb⟩ := encOf_wav_facts henc
   have hch : 1 ≤ h.ch ∧ h.ch ≤ 1024 := by rw [cfg.hch]; have := cfg.chr; omega
   have hsr' : 1 ≤ h.sr ∧ h.sr ≤ 0x7FFFFFFF := by rw [cfg.hsr]; exact ⟨cfg.srr, hsr⟩
-  generalize hfl : ((hdrLenOf h + D.length + (wavPadAt (hdrLenOf h + D.length)).length : Nat) : Int) = fl
-  generalize hpd : wavPadAt (hdrLenOf h + D.length) = pad
-  have hpl : pad.length ≤ 1 := by rw [← hpd]; exact wavPadAt_length _
-  have himg : wavHdr_ct h.big (codecOf h.fmtWord) h.enc.nbytes h.ch h.sr F none true fl D.length ++ D ++ pad =
+  generalize hfl : ((hdrLenOf h + D.length + t2 : Nat) : Int) = fl
+  generalize hpd : zeros t2 = pad
+  have hpl : pad.length ≤ 1 := by rw [← hpd, zeros_length]; exact ht2
+  have hpl' : ∀ ps, h.peak = some ps → ps.length = h.ch := fun ps hp => (v.peak ps hp).1
+  have himg : wavHdr_ct h.big (codecOf h.fmtWord) h.enc.nbytes h.ch h.sr F h.peak true fl D.length ++ D ++ pad =
       wavChain h.big (codecOf h.fmtWord) (wavNb (codecOf h.fmtWord)) h.ch h.sr (wavFact h.big (codecOf h.fmtWord) F)
-        [] fl D.length (D ++ pad) := by
-    rw [List.append_assoc, wavHdr_chain, hnb]; rfl
-  have hO : hdrLenOf h = 16 + wavFmtLen (codecOf h.fmtWord) + (wavFact h.big (codecOf h.fmtWord) F).length + 0 + 8 := by
-    simp only [hdrLenOf, hc, wavHdrLen, v.peak, wavFact_length, wavFmtLen]
-    simp
-  obtain ⟨pk, hparse⟩ := wavParse_chain h.big (codecOf h.fmtWord) h.ch h.sr (wavFact h.big (codecOf h.fmtWord) F) []
-    fl D.length (D ++ pad) hcodec hch (wavFact_shape _ _ _) (Or.inl rfl) hguard (by simp) (by simp; omega)
-  simp only [List.length_nil] at hparse
+        (wavPeakStart h.big h.ch h.peak true) fl D.length (D ++ pad) := by
+    rw [List.append_assoc, wavHdr_chain, hnb]
+  have hO : hdrLenOf h = 16 + wavFmtLen (codecOf h.fmtWord) + (wavFact h.big (codecOf h.fmtWord) F).length +
+      (wavPeakStart h.big h.ch h.peak true).length + 8 := by
+    rw [hdrLenOf_wav h hc v.peak, wavPeakStart_length _ _ _ hpl', wavFact_length]; unfold wavHdrLen_ct; omega
+  obtain ⟨pk, hparse⟩ := wavParse_chain h.big (codecOf h.fmtWord) h.ch h.sr (wavFact h.big (codecOf h.fmtWord) F)
+    (wavPeakStart h.big h.ch h.peak true)
+    fl D.length (D ++ pad) hcodec hch (wavFact_shape _ _ _) (wavPeakStart_shape _ _ _ hpl') hguard (by simp) (by simp; omega)
   rw [← hO] at hparse
   obtain ⟨hf1, hf2⟩ := wav_fmtWord_facts h.big _ hcodec
   have hsrw : ((wrapU 32 h.sr : Nat) : Int) = h.sr := wrapU_of_range 32 h.sr (by omega) (by omega)
@@ -206,10 +225,8 @@ theorem RwView.reopen_wav {h : H} {s : Store} {R W F : Nat} {hdr D : List Byte} 
   obtain ⟨h', s', ho, hfr, h1, _, _, h4, _, h6, h7, h8, h9, _⟩ :=
     openHandle_r_parsed ix _ pos fmt0 ch0 sr0 _ .wav h.enc hraw (by rw [parseAny_wav]; exact hparse) hf1
       (by rw [hf2]; exact henc) (by simp only; rw [hsrw]; exact hsr'.1)
-  have hhl : (wavHdr_ct h.big (codecOf h.fmtWord) h.enc.nbytes h.ch h.sr F none true fl D.length).length = hdrLenOf h := by
-    rw [wavHdr_length _ _ _ _ _ _ _ _ _ (fun ps hp => by cases hp)]
-    simp only [hdrLenOf, hc, wavHdrLen, v.peak, wavHdrLen_ct, wavFmtLen]
-    simp
+  have hhl : (wavHdr_ct h.big (codecOf h.fmtWord) h.enc.nbytes h.ch h.sr F h.peak true fl D.length).length = hdrLenOf h := by
+    rw [wavHdr_length _ _ _ _ _ _ _ _ _ hpl', hdrLenOf_wav h hc v.peak]
   have hO0 : 0 < hdrLenOf h := by rw [hO]; omega
   refine ⟨h', s', ho, h6, ?_, h1, h4, h8, open_r_wpos _ _ _ _ _ _ _ ho, by rw [h7], ⟨pad, ?_⟩⟩
   · rw [hfr]
@@ -263,18 +280,23 @@ structure ReopenedRw (enc : Enc) (chn F : Nat) (D : List Byte) (h' : H) (s' : St
 
 theorem ReopenedRw.of_open {enc : Enc} {chn F : Nat} {D : List Byte} {ix : Nat} {s0 : Store} {fmt : Nat} {ch sr : Int}
     {h' : H} {s' : Store} (ho : openHandle ix s0 .rw fmt ch sr = .ok h' s') (hch : h'.ch = chn) (henc : h'.enc = enc)
-    (hfr : h'.frames = (F : Int)) (hdo : h'.dataoffset = (hdrLenOf h' : Nat)) (hpk : h'.peak = none)
-    (hde : h'.dataend = 0) (hD : D.length = F * (enc.nbytes * chn)) (hdata : s'.bytes.drop (hdrLenOf h') = D)
+    (hfr : h'.frames = (F : Int)) (hdo : h'.dataoffset = (hdrLenOf h' : Nat)) (hpk : PeakOk h')
+    (t2 : Nat) (htl : TailOk h' t2)
+    (hde : h'.container ≠ .wav → h'.dataend = 0) (hD : D.length = F * (enc.nbytes * chn))
+    (hdata : s'.bytes.drop (hdrLenOf h') = D ++ zeros t2)
     (hlen : hdrLenOf h' ≤ s'.bytes.length) : ReopenedRw enc chn F D h' s' := by
   have eb : h'.bw = enc.nbytes * chn := by unfold H.bw; rw [henc, hch]
-  have hl : s'.bytes.length = hdrLenOf h' + D.length := by
+  have hl : s'.bytes.length = hdrLenOf h' + D.length + t2 := by
     have := congrArg List.length hdata
-    rw [List.length_drop] at this; omega
-  have ht : OpenTight h' s' := ⟨hdo, hpk, hde, by rw [hl, hdo, hfr, hD, eb]; push_cast; rfl⟩
+    rw [List.length_drop, List.length_append, zeros_length] at this; omega
+  have ht : OpenPadded h' s' := by
+    refine ⟨hdo, hpk, hde, t2, htl, by rw [hl, hdo, hfr, hD, eb]; push_cast; rfl, ?_⟩
+    have e : s'.bytes.length - t2 = hdrLenOf h' + D.length := by omega
+    rw [e, ← List.drop_drop, hdata, List.drop_left' rfl]
   obtain ⟨_, _, hr, _, hw, _, _, _⟩ := open_rw_facts ix s0 fmt ch sr h' s' ho
-  refine ⟨RwInv_open ix s0 fmt ch sr h' s' ho ht, ?_, hch, henc⟩
+  refine ⟨RwInv_open_padded ix s0 fmt ch sr h' s' ho ht, ?_, hch, henc⟩
   unfold absOf dataRegion
-  rw [hdo, hfr, hr, hw, hfr, Int.toNat_natCast, Int.toNat_natCast, hdata, eb, ← hD, List.take_length]
+  rw [hdo, hfr, hr, hw, hfr, Int.toNat_natCast, Int.toNat_natCast, hdata, eb, ← hD, List.take_left' rfl]
   rfl
 
 /-! ### the three images -/
@@ -296,7 +318,9 @@ theorem raw_image_open_rw (fmt : Nat) (ch sr : Int) (enc : Enc) (hcont : contain
   obtain ⟨a, b, c, d, e⟩ := hraw e3
   have eb : h'.bw = enc.nbytes * ch.toNat := by unfold H.bw; rw [e2, e1]
   have hO : hdrLenOf h' = 0 := by simp [hdrLenOf, e3]
-  refine ⟨h', s', ho, ReopenedRw.of_open ho e1 e2 ?_ (by rw [a, hO]; rfl) b c hD (by rw [hO, d]; rfl) (by rw [hO]; omega)⟩
+  refine ⟨h', s', ho, ReopenedRw.of_open ho e1 e2 ?_ (by rw [a, hO]; rfl) (fun ps hp => by rw [b] at hp; cases hp) 0
+    (Or.inl rfl) (fun _ => c) hD
+    (by rw [hO, d]; simp [zeros]) (by rw [hO]; omega)⟩
   rw [e]; simp only; rw [eb, hD, Nat.mul_div_cancel _ hbw]
 
 theorem au_image_open_rw (big : Bool) (codec : Nat) (sr : Int) (chn : Nat) (enc : Enc)
@@ -319,60 +343,101 @@ theorem au_image_open_rw (big : Bool) (codec : Nat) (sr : Int) (chn : Nat) (enc 
     openHandle_rw_parsed ix _ pos fmt0 ch0 sr0 _ .au enc hne hraw (by rw [parseAny_au]; exact hparse) hf1
       (by rw [hf2]; exact henc) hsr.1
   have hO : hdrLenOf h' = 24 := by simp [hdrLenOf, h3]
-  refine ⟨h', s', ho, ReopenedRw.of_open ho h1 h2 ?_ (by rw [h8, hO]) h5 h7 hD ?_ ?_⟩
+  refine ⟨h', s', ho, ReopenedRw.of_open ho h1 h2 ?_ (by rw [h8, hO]) (fun ps hp => by rw [h5] at hp; cases hp) 0
+    (Or.inl rfl) (fun _ => h7) hD ?_ ?_⟩
   · rw [hfr]
     have := initFrames_plain 24 D.length (enc.nbytes * chn) hbw
     simp only at this ⊢
     rw [this, hD, Nat.mul_div_cancel _ hbw]
-  · rw [h9, hO, ← hlen]; simp
+  · rw [h9, hO, ← hlen]; simp [zeros]
   · rw [h9, hO, List.length_append, hlen]; omega
 
-/-- WAV without a PEAK chunk whose data section ends on an even offset (no pad byte) -/
+/-- WAV, with or without a PEAK chunk in front of the data, at most the zero pad byte behind the data -/
 theorem wav_image_open_rw (big : Bool) (codec : Nat) (sr : Int) (chn : Nat) (enc : Enc)
     (henc : encOf .wav codec big = some enc) (hch : 1 ≤ chn ∧ chn ≤ 1024) (hsr : 1 ≤ sr ∧ sr ≤ 0x7FFFFFFF)
     (D : List Byte) (F : Nat) (hD : D.length = F * (enc.nbytes * chn)) (hguard : D.length < 0xFFFFFFFF) (fl : Int)
-    (heven : (wavHdrLen_ct codec chn false + D.length) % 2 = 0)
+    (peak : Option (List Peak)) (hpl : ∀ ps, peak = some ps → ps.length = chn)
+    (t2 : Nat) (ht2 : t2 ≤ 1)
     (ix pos fmt0 : Nat) (ch0 sr0 : Int) (hraw : containerOf fmt0 ≠ some .raw) :
-    ∃ h' s', openHandle ix ⟨wavHdr_ct big codec enc.nbytes chn sr F none true fl D.length ++ D, pos⟩ .rw fmt0 ch0 sr0 =
-        .ok h' s' ∧ ReopenedRw enc chn F D h' s' := by
+    ∃ h' s', openHandle ix ⟨wavHdr_ct big codec enc.nbytes chn sr F peak true fl D.length ++ D ++ zeros t2, pos⟩ .rw
+        fmt0 ch0 sr0 = .ok h' s' ∧ ReopenedRw enc chn F D h' s' := by
   obtain ⟨hcodec, hnb⟩ := encOf_wav_facts henc
   have hbw : 0 < enc.nbytes * chn := Nat.mul_pos (encOf_nbytes_pos_ct henc) (by omega)
-  have himg : wavHdr_ct big codec enc.nbytes chn sr F none true fl D.length ++ D =
-      wavChain big codec (wavNb codec) chn sr (wavFact big codec F) [] fl D.length D := by
-    rw [wavHdr_chain, hnb]; rfl
-  have hO : wavHdrLen_ct codec chn false = 16 + wavFmtLen codec + (wavFact big codec F).length + 0 + 8 := by
-    simp only [wavHdrLen_ct, wavFact_length]
-    simp
-  have hparse := wavParse_chain_nopeak big codec chn sr (wavFact big codec F) []
-    fl D.length D hcodec hch (wavFact_shape _ _ _) rfl hguard (by simp) (by simp)
-  simp only [List.length_nil] at hparse
+  generalize hP : wavPeakStart big chn peak true = P
+  have hPl : P.length = if peak.isSome then 16 + 8 * chn else 0 := by rw [← hP]; exact wavPeakStart_length _ _ _ hpl
+  have himg : wavHdr_ct big codec enc.nbytes chn sr F peak true fl D.length ++ D ++ zeros t2 =
+      wavChain big codec (wavNb codec) chn sr (wavFact big codec F) P fl D.length (D ++ zeros t2) := by
+    rw [List.append_assoc, wavHdr_chain, hnb, hP]
+  have hO : wavHdrLen_ct codec chn peak.isSome = 16 + wavFmtLen codec + (wavFact big codec F).length + P.length + 8 := by
+    rw [hPl, wavFact_length]; unfold wavHdrLen_ct; omega
+  -- the parser, with the PEAK table pinned down to what the invariant needs
+  obtain ⟨pk, hpk1, hpk2, hparse⟩ : ∃ pk : Option (List Peak), (∀ ps, pk = some ps → ps.length = chn) ∧
+      pk.isSome = peak.isSome ∧
+      wavParse (wavChain big codec (wavNb codec) chn sr (wavFact big codec F) P fl D.length (D ++ zeros t2)) =
+        .ok { fmtWord := (if big then 0x20000000 else 0) + 0x010000 + codec, ch := chn, sr := wrapU 32 sr, big := big,
+              dataoffset := 16 + wavFmtLen codec + (wavFact big codec F).length + P.length + 8,
+              datalength := ((D.length + D.length % 2 : Nat) : Int),
+              dataend := if D.length < (D ++ zeros t2).length then
+                ((16 + wavFmtLen codec + (wavFact big codec F).length + P.length + 8 + D.length : Nat) : Int) else 0,
+              filelength := ((16 + wavFmtLen codec + (wavFact big codec F).length + P.length + 8 + (D ++ zeros t2).length : Nat) : Int),
+              peak := pk, peakAtStart := true } := by
+    cases hp : peak with
+    | none =>
+      have hPn : P = [] := by rw [← hP, hp]; rfl
+      exact ⟨none, (fun ps hc => by cases hc), rfl,
+        wavParse_chain_nopeak big codec chn sr (wavFact big codec F) P fl D.length (D ++ zeros t2) hcodec hch
+          (wavFact_shape _ _ _) hPn hguard (by simp) (by rw [List.length_append, zeros_length]; omega)⟩
+    | some ps0 =>
+      have hsh := wavPeakStart_shape big chn peak hpl
+      rw [hP] at hsh
+      have hne : P ≠ [] := by
+        intro hc; simp [hc, hp] at hPl; omega
+      obtain ⟨ps, hps, hpr⟩ := wavParse_chain_peak big codec chn sr (wavFact big codec F) P fl D.length (D ++ zeros t2)
+        hcodec hch (wavFact_shape _ _ _) (hsh.resolve_left hne) hguard (by simp)
+        (by rw [List.length_append, zeros_length]; omega)
+      exact ⟨some ps, (fun ps' hc => by cases hc; exact hps), rfl, hpr⟩
   rw [← hO] at hparse
   obtain ⟨hf1, hf2⟩ := wav_fmtWord_facts big _ hcodec
   have hsrw : ((wrapU 32 sr : Nat) : Int) = sr := wrapU_of_range 32 sr (by omega) (by omega)
-  have hhl : (wavHdr_ct big codec enc.nbytes chn sr F none true fl D.length).length = wavHdrLen_ct codec chn false :=
-    wavHdr_length _ _ _ _ _ _ _ _ _ (fun ps hp => by cases hp)
-  have hO0 : 0 < wavHdrLen_ct codec chn false := by rw [hO]; omega
-  have hne : wavHdr_ct big codec enc.nbytes chn sr F none true fl D.length ++ D ≠ [] := by
+  have hhl : (wavHdr_ct big codec enc.nbytes chn sr F peak true fl D.length).length = wavHdrLen_ct codec chn peak.isSome :=
+    wavHdr_length _ _ _ _ _ _ _ _ _ hpl
+  have hO0 : 0 < wavHdrLen_ct codec chn peak.isSome := by rw [hO]; omega
+  have hne : wavHdr_ct big codec enc.nbytes chn sr F peak true fl D.length ++ D ++ zeros t2 ≠ [] := by
     intro hc0
     have := congrArg List.length hc0
-    rw [List.length_append, hhl] at this; simp at this; omega
+    rw [List.length_append, List.length_append, hhl] at this; simp at this; omega
   rw [himg] at hne ⊢
   obtain ⟨h', s', ho, hfr, h1, h2, h3, h4, h5, h6, h7, h8, h9⟩ :=
     openHandle_rw_parsed ix _ pos fmt0 ch0 sr0 _ .wav enc hne hraw (by rw [parseAny_wav]; exact hparse) hf1
       (by rw [hf2]; exact henc) (by simp only; rw [hsrw]; exact hsr.1)
-  have hOl : hdrLenOf h' = wavHdrLen_ct codec chn false := by
+  have hpok : PeakOk h' := by
+    intro ps hp
+    rw [h5] at hp
+    exact ⟨by rw [h1]; exact hpk1 ps hp, h6⟩
+  have hOl : hdrLenOf h' = wavHdrLen_ct codec chn peak.isSome := by
     have e4 : codecOf h'.fmtWord = codec := by rw [h4]; exact hf2
-    simp only [hdrLenOf, h3, wavHdrLen, h5, e4, wavHdrLen_ct, wavFmtLen]
-    simp
-  refine ⟨h', s', ho, ReopenedRw.of_open ho h1 h2 ?_ (by rw [h8, hOl]) h5 ?_ hD ?_ ?_⟩
+    rw [hdrLenOf_wav h' h3 hpok, e4, h1, h5]
+    show wavHdrLen_ct codec chn pk.isSome = _
+    rw [hpk2]
+  have htl : TailOk h' t2 := by
+    rcases Nat.eq_zero_or_pos t2 with hz | hp
+    · left; exact hz
+    · right; exact ⟨by omega, h3⟩
+  refine ⟨h', s', ho, ReopenedRw.of_open ho h1 h2 ?_ (by rw [h8, hOl]) hpok t2 htl (fun hnw => absurd h3 hnw) hD ?_ ?_⟩
   · rw [hfr]
     have hN : D.length / (enc.nbytes * chn) = F := by rw [hD]; exact Nat.mul_div_cancel _ hbw
-    have e1 : ¬ (D.length < D.length) := by omega
-    simp only [e1, if_false]
-    exact (initFrames_plain (wavHdrLen_ct codec chn false) D.length (enc.nbytes * chn) hbw).trans (by rw [hN])
-  · rw [h7]; simp
-  · rw [h9, hOl, ← himg, ← hhl]; simp
-  · rw [h9, hOl, ← himg, List.length_append, hhl]; omega
+    simp only [List.length_append, zeros_length]
+    rcases Nat.eq_zero_or_pos t2 with ht | ht
+    · have e1 : ¬ (D.length < D.length + t2) := by omega
+      have e2 : wavHdrLen_ct codec chn peak.isSome + (D.length + t2) = wavHdrLen_ct codec chn peak.isSome + D.length := by omega
+      simp only [e1, if_false, e2]
+      exact (initFrames_plain (wavHdrLen_ct codec chn peak.isSome) D.length (enc.nbytes * chn) hbw).trans (by rw [hN])
+    · have e1 : D.length < D.length + t2 := by omega
+      have e2 : wavHdrLen_ct codec chn peak.isSome + (D.length + t2) = wavHdrLen_ct codec chn peak.isSome + D.length + t2 := by omega
+      simp only [e1, if_true, e2]
+      exact (initFrames_dataend (wavHdrLen_ct codec chn peak.isSome) D.length t2 (enc.nbytes * chn) hbw ht hO0).trans (by rw [hN])
+  · rw [h9, hOl, ← himg, List.append_assoc, ← hhl]; simp
+  · rw [h9, hOl, ← himg, List.length_append, List.length_append, hhl]; omega
 
 /-! ### … applied to what `closeHandle` leaves -/
 
@@ -404,21 +469,19 @@ theorem hdrLenOf_wav_nopeak (h : H) (hc : h.container = .wav) (hp : h.peak = non
   simp only [hdrLenOf, hc, wavHdrLen, hp, wavHdrLen_ct, wavFmtLen]
   simp
 
-/-- WAV: when the data section ends on an even offset (no pad byte follows it) -/
+/-- WAV: with or without the pad byte -/
 theorem RwView.reopen_rw_wav {h : H} {s : Store} {R W F : Nat} {hdr D : List Byte} (v : RwView h s R W F hdr D)
     {fmt : Nat} {ch sr : Int} (cfg : CfgOf fmt ch sr h) (hc : h.container = .wav) (hsr : sr ≤ 0x7FFFFFFF)
-    (hguard : D.length < 0xFFFFFFFF) (heven : (hdrLenOf h + D.length) % 2 = 0)
+    (hguard : D.length < 0xFFFFFFFF)
     (ix pos fmt0 : Nat) (ch0 sr0 : Int) (hraw : containerOf fmt0 ≠ some .raw) :
     ∃ h' s', openHandle ix ⟨(closeHandle h s).bytes, pos⟩ .rw fmt0 ch0 sr0 = .ok h' s' ∧ ReopenedRw h.enc h.ch F D h' s' := by
-  rw [v.close_wav hc]
-  have hpad : wavPadAt (hdrLenOf h + D.length) = [] := by unfold wavPadAt; rw [if_neg (by omega)]
-  rw [hpad]
-  simp only [List.length_nil, Nat.add_zero, List.append_nil]
+  obtain ⟨t2, ht2, _, hcl⟩ := v.close_wav hc
+  rw [hcl]
   have henc : encOf .wav (codecOf h.fmtWord) h.big = some h.enc := by
     have := cfg.enc; rw [hc] at this; rw [cfg.fmtWord]; exact this
   have hch : 1 ≤ h.ch ∧ h.ch ≤ 1024 := by rw [cfg.hch]; have := cfg.chr; omega
   have hsr' : 1 ≤ h.sr ∧ h.sr ≤ 0x7FFFFFFF := by rw [cfg.hsr]; exact ⟨cfg.srr, hsr⟩
-  exact wav_image_open_rw h.big _ h.sr h.ch h.enc henc hch hsr' D F v.dlen hguard _
-    (by rw [← hdrLenOf_wav_nopeak h hc v.peak]; exact heven) ix pos fmt0 ch0 sr0 hraw
+  exact wav_image_open_rw h.big _ h.sr h.ch h.enc henc hch hsr' D F v.dlen hguard _ h.peak
+    (fun ps hp => (v.peak ps hp).1) t2 ht2 ix pos fmt0 ch0 sr0 hraw
 
 end Sf
